@@ -192,6 +192,15 @@ def run_case(c, ns):
         if op == "pack":
             p = build(c["value"], ns)
             return {"ok": p.pack().hex()}
+        if op == "consistency":
+            # Packet.assert_consistency on a constructed value: True / False (dont_raise) and what it raises otherwise
+            p = build(c["value"], ns)
+            out = {"dont_raise": p.assert_consistency(dont_raise=True)}
+            try:
+                out["plain"] = p.assert_consistency()
+            except Exception as e:
+                out["plain"] = "EXC:" + type(e).__name__
+            return {"ok": out}
         if op == "pack_cursor":
             # where the output cursor stands after serializing every field (the begin of whatever would come next)
             from bisturi.fragments import Fragments
